@@ -419,6 +419,8 @@ func verifAttackPump(op *verifOp, res *verifOut) {
 	mu.Unlock()
 }
 
+type verifConnKey struct{}
+
 // verifReq is what the end-to-end server saw of one request.
 type verifReq struct {
 	Seq     string              `json:"seq"`
@@ -433,6 +435,7 @@ type verifReq struct {
 	Remote  string              `json:"remote"`
 	Proto   string              `json:"proto"`
 	TLS     bool                `json:"tls"`
+	ConnID  int64               `json:"conn_id"`
 	StartNs int64               `json:"start_ns"`
 	EndNs   int64               `json:"end_ns"`
 }
@@ -479,6 +482,7 @@ func verifE2E(op *verifOp, res *verifOut) {
 		rec := verifReq{Seq: r.Header.Get("X-Vegeta-Seq"), Attack: r.Header.Get("X-Vegeta-Attack"), Method: r.Method, Path: r.URL.Path,
 			Host: r.Host, Header: r.Header, BodyLen: len(body), Chunked: len(r.TransferEncoding) > 0, Remote: r.RemoteAddr,
 			Proto: r.Proto, TLS: r.TLS != nil, StartNs: int64(start)}
+		rec.ConnID, _ = r.Context().Value(verifConnKey{}).(int64)
 		if len(body) <= 256 {
 			rec.Body = string(body)
 		}
@@ -527,6 +531,10 @@ func verifE2E(op *verifOp, res *verifOut) {
 		mu.Unlock()
 	})
 	srv := httptest.NewUnstartedServer(handler)
+	var conns int64 // every accepted connection gets a number (remote ports are re-used too quickly to identify one)
+	srv.Config.ConnContext = func(ctx context.Context, _ net.Conn) context.Context {
+		return context.WithValue(ctx, verifConnKey{}, atomic.AddInt64(&conns, 1))
+	}
 	switch op.Server {
 	case "tls":
 		srv.StartTLS()
